@@ -15,6 +15,21 @@ import (
 	"verifharness/lib"
 )
 
+// genBurst: a block whose external-trigger list is longer than any file buffer (a run of consecutive counts,
+// rendered compactly), n around the 512-count = 4096-byte boundary or well above it.
+func genBurst(r *lib.Rng, frame *int64) drv.Op {
+	o := drv.Op{Op: "BLK"}
+	*frame += int64(r.Range(1, 1000))
+	o.First = *frame
+	n := r.Pick([]int{511, 512, 513, 514, 600, 700, 1023, 1025, 1500, 2000})
+	v := *frame * 64
+	for i := 0; i < n; i++ {
+		o.Ext = append(o.Ext, v+int64(i))
+	}
+	*frame += int64(n/64 + 1)
+	return o
+}
+
 func genBlock(r *lib.Rng, frame *int64) drv.Op {
 	o := drv.Op{Op: "BLK"}
 	*frame += int64(r.Range(1, 1000))
@@ -58,11 +73,20 @@ func genCase(r *lib.Rng, id int64, tier string) drv.Case {
 	}
 	var frame int64
 	active := false // generator's guess only (steers the mix; the harness never relies on it)
+	bursts := 0
+	if r.Chance(1, 6) {
+		bursts = r.Range(1, 3) // this history mixes up to 3 long trigger lists with the small ones
+	}
 	for len(c.Ops) < nops {
 		k := r.Intn(100)
 		switch {
 		case k < 40:
-			c.Ops = append(c.Ops, genBlock(r, &frame))
+			if bursts > 0 && active && r.Chance(1, 3) {
+				c.Ops = append(c.Ops, genBurst(r, &frame))
+				bursts--
+			} else {
+				c.Ops = append(c.Ops, genBlock(r, &frame))
+			}
 		case k < 52:
 			o := drv.GenWC(r, 0, true)
 			if r.Chance(3, 4) && !o.L22 && !o.L3 {
@@ -108,6 +132,13 @@ func corpus() []drv.Case {
 	blk := func(first int64, drops int, ext ...int64) drv.Op {
 		return drv.Op{Op: "BLK", First: first, Drops: drops, Ext: ext}
 	}
+	run := func(first int64, n int, from int64) drv.Op {
+		o := drv.Op{Op: "BLK", First: first}
+		for i := 0; i < n; i++ {
+			o.Ext = append(o.Ext, from+int64(i))
+		}
+		return o
+	}
 	p := []bool{true, false}
 	return []drv.Case{
 		// two runs with events in each and events outside any run
@@ -117,6 +148,9 @@ func corpus() []drv.Case {
 		{Proj: p, Base: 1, Map: -1, Ops: []drv.Op{st, blk(5, 0), wc("STOP"), st, blk(6, 0), blk(7, 9), wc("STOP")}},
 		// multi-line labels must be rejected (refuted pre-fix), empty label, label requests that fail leave no line
 		{Proj: p, Base: 1, Map: -1, Ops: []drv.Op{st, lb("two\nlines"), lb(""), wc("UNPAUSE x\ny"), lb("ok, fine"), wc("UNPAUSEbad"), wc("STOP")}},
+		// long external-trigger lists (more than one 4096-byte buffer) mixed with short ones inside one run
+		{Proj: p, Base: 1, Map: -1, Ops: []drv.Op{st, blk(10, 0, 1, 2, 3), blk(20, 0), run(30, 700, 5000), blk(40, 1, 9001, 9002), run(50, 1500, 20000), blk(60, 0, 30001, 30002, 30003, 30004, 30005), wc("STOP"),
+			st, run(70, 513, 40000), wc("STOP"), st, blk(80, 0, 7), run(90, 512, 50000), run(91, 2000, 60000), blk(92, 0, 8), wc("STOP")}},
 		// STOP while idle, START rejected while active, labels equal to START / STOP
 		{Proj: p, Base: 1, Map: -1, Ops: []drv.Op{wc("STOP"), st, st, lb("STOP"), lb("START"), blk(1, 1, -1, 1<<62), wc("stop"), wc("STOP")}},
 	}
@@ -146,7 +180,7 @@ func optZList(present bool, xs []int64) string {
 	if !present {
 		return "None"
 	}
-	return "(Some " + lib.ZList64(xs) + ")"
+	return "(Some " + drv.CompactZList(xs) + ")"
 }
 
 func filesTerm(f *drv.SideFiles) string {
@@ -270,8 +304,11 @@ ops:
 		case "BLK":
 			act := s.Reported().Active
 			es := s.Blk(o)
-			terms = append(terms, fmt.Sprintf("Bq %s %s %s %s", lib.ZList64(o.Ext), lib.Z(int64(o.Drops)), lib.Z(o.First), lib.B(es != "")))
+			terms = append(terms, fmt.Sprintf("Bq %s %s %s %s", drv.CompactZList(o.Ext), lib.Z(int64(o.Drops)), lib.Z(o.First), lib.B(es != "")))
 			outs = append(outs, stepOut{Op: "BLK", OK: es == "", Err: es})
+			if len(o.Ext) > 512 && act {
+				tags["ext-burst-over-4096-bytes"] = true
+			}
 			if len(o.Ext) > 0 || o.Drops > 0 {
 				if act {
 					spanEvents = true
